@@ -283,6 +283,9 @@ type errSite struct {
 func errorSites(fns []*ssa.Function) []errSite {
 	var out []errSite
 	for _, f := range fns {
+		if isErrorCtorHelper(f) {
+			continue // accounted for at its call sites
+		}
 		for _, b := range f.Blocks {
 			for _, ins := range b.Instrs {
 				if c, ok := ins.(*ssa.Call); ok {
@@ -390,12 +393,12 @@ func c16Validators(e *Env) {
 		}
 		for i, s := range sites {
 			k := fmt.Sprintf("%s#error-site-%d(%s)", key, i+1, strings.TrimPrefix(e.P.FuncKey(s.fn), outputRel+"."))
-			lk := failedLookup(s.fn, s.call)
-			if lk == nil {
+			_, namesV, _, okM := missingNameAt(s.fn, s.call)
+			if !okM {
 				r.Violate("R16.6", k, "error site that is not guarded by a failed lookup of a declared name: --"+f.flag+" would hide a diagnostic of another class", nil, e.P.Pos(s.call.Pos()))
 				continue
 			}
-			src := elemSourceField(lk.Index)
+			src := sliceSourceField(namesV)
 			r.Check(f.depField[src], "R16.6", k, fmt.Sprintf("reports a %s: failed lookup keyed by an element of %q", f.class, src), e.P.Pos(s.call.Pos()))
 		}
 	}
@@ -409,7 +412,7 @@ func c16Validators(e *Env) {
 		}
 		bad := 0
 		for _, s := range errorSites(pkgCallees(fn)) {
-			if failedLookup(s.fn, s.call) != nil {
+			if _, _, _, okM := missingNameAt(s.fn, s.call); okM {
 				bad++
 				r.Violate("R16.6", key+"#missing-name-report", "a validator that cannot be switched off reports a missing name: the ignore flags no longer suppress that class", nil, e.P.Pos(s.call.Pos()))
 			}
